@@ -102,6 +102,11 @@ func buildExchanges(t *sim.Tape, v int, overlimit bool) []exchange {
 		ex.resp = mkResp()
 		fillObject(t, ex.resp, 0, uint64(i*2+1))
 		fixup(ex.resp)
+		if v == 2 && t.Chance(1, 4) {
+			// message sizes around the transport's minimum frame size (padding boundary)
+			ex.name, ex.id, ex.req, ex.reqEnc = "Settings(padding boundary)", rhp2.RPCSettingsID, nil, nil
+			ex.resp = &rhp2.RPCSettingsResponse{Settings: sim.HashBytes("settings", uint64(i), 7, 3960+t.Choose(180))}
+		}
 		ex.respEnc = encP(ex.resp)
 		// the reader's limit is on the framed message: object + response flag
 		// (+ for RHP2: nonce and MAC)
